@@ -109,12 +109,20 @@ def _sc(x, w):
     return int(x) if d is None else _np_type(d)(int(x))
 
 
-def _tok(rng, values, p=0.5):
-    """a random ` @dtype` suffix whose dtype can hold all the values ('' with probability 1-p)"""
+def _tok(rng, values, p=0.5, layouts=(), p_layout=0.35):
+    """a random ` @dtype` / ` @layout` suffix ('' with probability 1-p); a dtype is one that can hold all the values"""
     if rng.random() >= p:
         return ""
+    if layouts and rng.random() < p_layout:
+        return " @" + rng.choice(list(layouts))
     fit = [d for d, (lo, hi) in sorted(DT_RANGE.items()) if all(lo <= v <= hi for v in values)]
     return " @" + rng.choice(fit) if fit else ""
+
+
+def _ctor_tok(rng, rows, p=0.6):
+    if not rows and rng.random() < 0.5:
+        return " @none"
+    return _tok(rng, [x for r in rows for x in r], p, ("be", "ro", "sr", "sc", "F", "kw"))
 
 
 def _bits(bs):
@@ -252,11 +260,83 @@ def _mk(n, rows, width):
     return BondList(n, arr)
 
 
+LAYOUTS = ("be", "ro", "sr", "sc", "F", "kw", "none")      # non-dtype `@` tokens
+
+
+def _layout(arr, variant):
+    """the same values in another memory layout: byte-swapped, read-only, strided rows / columns, Fortran order"""
+    import numpy as np
+    if variant == "be":
+        return arr.astype(">i8")
+    if variant == "ro":
+        arr = arr.copy()
+        arr.setflags(write=False)
+        return arr
+    if variant == "sr":
+        big = np.zeros((2 * arr.shape[0],) + arr.shape[1:], dtype=arr.dtype)
+        big[::2] = arr
+        return big[::2]
+    if variant == "sc" and arr.ndim == 2:
+        big = np.zeros((arr.shape[0], 2 * arr.shape[1]), dtype=arr.dtype)
+        big[:, ::2] = arr
+        return big[:, ::2]
+    if variant == "F" and arr.ndim == 2:
+        return np.asfortranarray(arr)
+    return arr
+
+
+def _int_array(values, w, shape=None):
+    import numpy as np
+    d = _dt(w)
+    arr = np.array(values, dtype=_np_type(d) if d in DT_RANGE else np.int64)
+    if shape is not None:
+        arr = arr.reshape(shape)
+    return _layout(arr, d)
+
+
+def _spell_int(x, k):
+    """a non-index integer argument (atom count, offset, bond type) in a spelling chosen by the value itself"""
+    import numpy as np
+    x = int(x)
+    if k % 3 == 1 and -2 ** 63 <= x < 2 ** 63:
+        return np.int64(x)
+    if k % 3 == 2 and 0 <= x < 256:
+        return np.uint8(x)
+    return x
+
+
+def _spell_type(t, k):
+    import numpy as np
+    from biotite.structure.bonds import BondType
+    t = int(t)
+    if 0 <= t <= 9:
+        return [t, BondType(t), np.uint8(t), np.int64(t)][k % 4]
+    return t
+
+
+def _remember(st, *objs):
+    """arguments handed to the code: (object, snapshot) — a call, accepted or refused, must not change them"""
+    import numpy as np
+    st.args = [(o, o.copy() if isinstance(o, np.ndarray) else list(o)) for o in objs
+               if isinstance(o, (np.ndarray, list))]
+
+
+def _args_changed(st):
+    import numpy as np
+    for o, snap in getattr(st, "args", []):
+        if isinstance(o, np.ndarray):
+            if o.shape != snap.shape or o.dtype != snap.dtype or not np.array_equal(o, snap):
+                return f"{snap.tolist()} became {o.tolist()}"
+        elif o != snap:
+            return f"{snap} became {o}"
+    return None
+
+
 def _index_object(w):
     import numpy as np
     kind = w[1]
     if kind == "mask":
-        return np.array(_parse_bits(w[2]), dtype=bool)
+        return _layout(np.array(_parse_bits(w[2]), dtype=bool), _dt(w))
     if kind == "smask":
         bits = _parse_bits(w[2])
         inter = np.zeros(2 * len(bits), dtype=bool)
@@ -265,7 +345,7 @@ def _index_object(w):
     if kind == "blist":
         return [bool(b) for b in _parse_bits(w[2])]
     if kind == "arr":
-        return np.array(_parse_ints(w[2]), dtype=_np_type(_dt(w) or "i64"))
+        return _int_array(_parse_ints(w[2]), w)
     if kind == "list":
         return _parse_ints(w[2])
     if kind == "slice":
@@ -282,9 +362,17 @@ def _do(st, w):
     import numpy as np
     from biotite.structure.bonds import BondList
     op = w[0]
+    st.args = []
     if op in ("new", "aux", "new2"):
         width = 2 if op == "new2" else 3
-        bl = _mk(int(w[1]), _parse_rows(w[2], width), width)
+        n, rows, variant = int(w[1]), _parse_rows(w[2], width), _dt(w)
+        nn = _spell_int(n, n)
+        if variant == "none" and not rows:
+            bl = BondList(nn) if n % 2 else BondList(nn, None)           # default argument / explicit None
+        else:
+            arr = _int_array(rows, w, (-1, width))
+            _remember(st, arr)
+            bl = BondList(atom_count=nn, bonds=arr) if variant == "kw" else BondList(nn, arr)
         if op == "aux":
             st.aux = bl
         else:
@@ -297,7 +385,9 @@ def _do(st, w):
         st.aux = st.cur.copy()
         return _state_line(st.aux)
     if op == "add":
-        st.cur.add_bond(_sc(w[1], w), _sc(w[2], w), int(w[3]))
+        st.cur.add_bond(_sc(w[1], w), _sc(w[2], w), _spell_type(w[3], int(w[1]) + int(w[2]) + int(w[3])))
+    elif op == "add2":
+        st.cur.add_bond(_sc(w[1], w), _sc(w[2], w))                      # default bond_type
     elif op == "remove":
         st.cur.remove_bond(_sc(w[1], w), _sc(w[2], w))
     elif op == "remove_to":
@@ -307,11 +397,14 @@ def _do(st, w):
     elif op == "merge":
         st.cur = st.cur.merge(st.aux)
     elif op == "concat":
-        st.cur = st.cur + st.aux
+        k = int(st.cur.get_bond_count()) + int(st.aux.get_bond_count())
+        st.cur = (st.cur + st.aux) if k % 2 == 0 else BondList.concatenate((st.cur, st.aux))
     elif op == "concat3":
-        st.cur = BondList.concatenate([st.cur, st.aux, st.cur])
+        parts = [st.cur, st.aux, st.cur]
+        k = int(st.cur.get_bond_count()) + int(st.aux.get_bond_count())
+        st.cur = BondList.concatenate(parts if k % 3 == 0 else tuple(parts) if k % 3 == 1 else (p for p in parts))
     elif op == "offset":
-        st.cur.offset_indices(int(w[1]))
+        st.cur.offset_indices(_spell_int(w[1], int(w[1])))
     elif op == "rm_arom":
         st.cur.remove_aromaticity()
     elif op == "rm_order":
@@ -319,7 +412,9 @@ def _do(st, w):
     elif op == "getitem" and w[1] == "int":
         return "ok " + _nb(*st.cur[_sc(w[2], w)])
     elif op == "getitem":
-        st.cur = st.cur[_index_object(w)]
+        ix = _index_object(w)
+        _remember(st, ix)
+        st.cur = st.cur[ix]
     elif op == "get_bonds":
         return "ok " + _nb(*st.cur.get_bonds(_sc(w[1], w)))
     elif op == "all_bonds":
@@ -353,7 +448,7 @@ def _do(st, w):
 def _atom_indices(w):
     """The explicit atom indices an op carries (scalar index arguments only)."""
     op = w[0]
-    if op in ("add", "remove", "contains"):
+    if op in ("add", "add2", "remove", "contains"):
         return [int(w[1]), int(w[2])]
     if op in ("remove_to", "get_bonds"):
         return [int(w[1])]
@@ -638,6 +733,21 @@ def _views_disagree(bl, ref):
                 out.append(("bond_type_matrix", f"[{i},{j}] = {tm[i, j]}, expected {t}"))
             if ((i, j) in bl) != (t is not None):
                 out.append(("contains", f"({i},{j}) in bonds = {(i, j) in bl}"))
+    # less-used entry points: str, iteration refused, comparison with a foreign object, !=, copy()
+    if str(bl) != str(bl.as_array()):
+        out.append(("str", f"{str(bl)!r}"))
+    try:
+        iter(bl)
+        out.append(("iter", "iter(bonds) did not raise"))
+    except TypeError:
+        pass
+    if bl == 3 or not (bl != 3) or bl == None:  # noqa: E711
+        out.append(("eq", "equal to an object that is no BondList"))
+    cp = bl.copy()
+    if not (cp == bl) or cp != bl or cp.as_set() != set(exp) or np.shares_memory(cp.as_array(), bl.as_array()):
+        out.append(("copy", "copy() differs from the list"))
+    if getattr(cp, "_max_bonds_per_atom", None) is not None and int(cp._max_bonds_per_atom) < (max(deg) if n else 0):
+        out.append(("copy", "copy() has a too small cached maximum"))
     # equality: equal to a list rebuilt from the mapping, different from every one-step neighbour of it
     same = _mk(n, [list(x) for x in reversed(exp)], 3)
     if not (bl == same) or not (same == bl):
@@ -761,7 +871,7 @@ def _index_class(n, i):
     return "in-range"
 
 
-OPNAME = {"add": "add_bond", "remove": "remove_bond", "remove_to": "remove_bonds_to", "get_bonds": "get_bonds",
+OPNAME = {"add": "add_bond", "add2": "add_bond", "remove": "remove_bond", "remove_to": "remove_bonds_to", "get_bonds": "get_bonds",
           "getitem": "getitem", "contains": "contains"}
 
 
@@ -787,6 +897,9 @@ def _ref_step(refs, w, as_code=False):
         refs["aux"] = cur.copy()
         return ("ok", None)
     idx = _atom_indices(w)
+    if op == "add2":
+        w = [w[0], w[1], w[2], "0"] + w[3:]                               # default bond type ANY
+        op = "add"
     if op == "add" and not 0 <= int(w[3]) <= 9:
         return ("reject", None)            # two reasons to reject: the statement does not say which one wins
     if op != "contains" and any(cur.norm(i) is None for i in idx):
@@ -827,6 +940,8 @@ def _ref_step(refs, w, as_code=False):
     elif op == "getitem" and w[1] != "int":
         if as_code and w[1] == "smask" and len(_parse_bits(w[2])) >= 2:
             return ("reject", None)        # generator bookkeeping follows the code (known finding): ValueError
+        if as_code and ((w[1] == "arr" and _dt(w) == "be") or (w[1] in ("mask", "smask") and _dt(w) == "ro")):
+            return ("reject", None)        # known findings: memoryview refuses byte-swapped arrays / read-only masks
         sel = _expected_sel(cur.n, w)
         if isinstance(sel, str):
             return ("reject", sel if sel == "IndexError" else None)
@@ -847,6 +962,11 @@ def _finding_key(w, n, got):
         cls = _index_class(n, bad[0])
         what = "crash" if got == "CRASH" else ("accepted" if got.startswith("ok") else got.replace("ERR:", ""))
         return f"C02/{op}/{cls}/{what}"
+    if w[0] == "getitem" and w[1] == "arr" and _dt(w) == "be" and got == "ERR:ValueError":
+        return "C02/getitem/byte-swapped-index-array-ValueError"
+    if w[0] == "getitem" and w[1] in ("mask", "smask") and _dt(w) == "ro" and got == "ERR:ValueError" \
+            and len(_parse_bits(w[2])) == n:
+        return "C02/getitem/read-only-mask-ValueError"
     if w[0] == "getitem" and w[1] in ("mask", "smask"):
         m = len(_parse_bits(w[2]))
         if m < n:
@@ -885,6 +1005,12 @@ def _oracle_inner(case):
     st = _St()
     refs = {"cur": Ref(0), "aux": Ref(0)}
     viol = []
+    from biotite.structure.bonds import BondType
+    for t in range(10):
+        if int(BondType(t).without_aromaticity()) != AROM.get(t, t):
+            viol.append((f"C02/BondType.without_aromaticity/{BondType(t).name}", f"{BondType(t).name}.without_aromaticity() = {BondType(t).without_aromaticity().name}"))
+    if len(BondType) != 10 or sorted(int(b) for b in BondType) != list(range(10)):
+        viol.append(("C02/BondType/members", f"{[(b.name, int(b)) for b in BondType]}"))
     held = {}
     lines = list(case.get("ops") or []) + list(case.get("probes") or [])
     n_ops = len(case.get("ops") or [])
@@ -917,6 +1043,26 @@ def _oracle_inner(case):
             if kind == "reject":
                 refs.update(before)
                 ok = got.startswith("ERR:") and (cls is None or got == "ERR:" + cls)
+                if got.startswith("ERR:"):
+                    # the child survived and raised: let the *same objects* the history goes on with see the refused
+                    # call, then every view, the cached maximum and the arguments must be as before
+                    try:
+                        _do(st, w)
+                        again = "ok"
+                    except Exception as e:  # noqa: BLE001
+                        again = "ERR:" + type(e).__name__
+                    opn = OPNAME.get(w[0], w[0])
+                    if again != got:
+                        viol.append((f"C02/{opn}/refused-call-not-reproducible", f"`{line}` raised {got} in a child and {again} on the history's objects"))
+                        break
+                    bad = _views_disagree(st.cur, refs["cur"]) + [("aux." + v, m) for v, m in _views_disagree(st.aux, refs["aux"])[:1]]
+                    if bad:
+                        viol.append((f"C02/{opn}/refused-call-changed-{bad[0][0]}", f"after {lines[:k]}: `{line}` raised {got} but {bad[0][0]}: {bad[0][1]}"))
+                        break
+                    ch = _args_changed(st)
+                    if ch:
+                        viol.append((f"C02/{opn}/refused-call-changed-argument", f"`{line}` raised {got} and changed its argument: {ch}"))
+                        break
                 if ok and (res[1][1] != f"ok {before['cur'].n} {_triples(before['cur'].triples())}"
                            or res[1][2] != f"ok {before['aux'].n} {_triples(before['aux'].triples())}"):
                     viol.append((f"C02/{OPNAME.get(w[0], w[0])}/rejected-but-changed", f"`{line}` raised {got} but the list changed: {res[1][1]}"))
@@ -940,6 +1086,10 @@ def _oracle_inner(case):
         if bad:
             v, msg = bad[0]
             viol.append((f"C02/{OPNAME.get(w[0], w[0])}/view-{v}", f"after {lines[:k + 1]}: {v}: {msg}"))
+            break
+        ch = _args_changed(st)
+        if ch:
+            viol.append((f"C02/{OPNAME.get(w[0], w[0])}/argument-changed", f"after {lines[:k]}: `{line}` changed its argument: {ch}"))
             break
         # views are values: nothing handed out earlier changed, editing what is handed out now changes nothing
         ap = _alias_problems(st, refs, held, OPNAME.get(w[0], w[0]), lines[:k + 1])
@@ -992,13 +1142,13 @@ def _rand_index(rng, n):
         bits = [rng.random() < 0.65 for _ in range(n)]
         if kind == "smask" and n < 2:
             kind = "mask"
-        return f"getitem {kind} {_bits(bits)}"
+        return f"getitem {kind} {_bits(bits)}" + (" @ro" if kind == "mask" and rng.random() < 0.08 else "")
     if kind in ("arr", "list"):
         sel = rng.sample(range(n), rng.randint(0, n)) if n else []
         if rng.random() < 0.5:
             sel.sort()
         sel = [i - n if rng.random() < 0.3 else i for i in sel]
-        return f"getitem {kind} {_ints(sel)}" + (_tok(rng, sel, 0.6) if kind == "arr" else "")
+        return f"getitem {kind} {_ints(sel)}" + (_tok(rng, sel, 0.6, ("ro", "sr", "sr", "ro", "be"), 0.3) if kind == "arr" else "")
     lim = n + 2
 
     def b():
@@ -1027,6 +1177,8 @@ def _valid_op(rng, refs):
         else:
             i, j = rng.randrange(n), rng.randrange(n)
         i, j = [x - n if rng.random() < 0.3 else x for x in (i, j)]
+        if rng.random() < 0.15:
+            return f"add2 {i} {j}" + _tok(rng, [i, j], 0.35)                 # default bond type
         return f"add {i} {j} {rng.randrange(10)}" + _tok(rng, [i, j], 0.35)
     if k == "remove":
         if cur.m and rng.random() < 0.7:
@@ -1063,10 +1215,12 @@ def _valid_op(rng, refs):
         return v
     if k in ("new", "aux"):
         m = rng.randint(0, 8)
-        return f"{k} {m} {_rows_text(_rand_rows(rng, m))}"
+        rows = _rand_rows(rng, m)
+        return f"{k} {m} {_rows_text(rows)}" + _ctor_tok(rng, rows)
     if k == "new2":
         m = rng.randint(0, 8)
-        return f"new2 {m} {_rows_text(_rand_rows(rng, m, 2))}"
+        rows = _rand_rows(rng, m, 2)
+        return f"new2 {m} {_rows_text(rows)}" + _ctor_tok(rng, rows)
     if k == "offset":
         return f"offset {rng.randint(0, 3)}"
     return k
@@ -1075,10 +1229,12 @@ def _valid_op(rng, refs):
 def _history(rng, length):
     refs = {"cur": Ref(0), "aux": Ref(0)}
     n0 = rng.randint(0, 8)
-    ops = [f"new {n0} {_rows_text(_rand_rows(rng, n0))}"]
+    rows0 = _rand_rows(rng, n0)
+    ops = [f"new {n0} {_rows_text(rows0)}" + _ctor_tok(rng, rows0, 0.4)]
     if rng.random() < 0.6:
         n1 = rng.randint(0, 8)
-        ops.append(f"aux {n1} {_rows_text(_rand_rows(rng, n1))}")
+        rows1 = _rand_rows(rng, n1)
+        ops.append(f"aux {n1} {_rows_text(rows1)}" + _ctor_tok(rng, rows1, 0.4))
     for op in ops:
         _ref_step(refs, op.split(), as_code=True)
     while len(ops) < length:
@@ -1126,7 +1282,7 @@ def _malformed_op(rng, refs):
         else:
             rows[w][0] = m
             rows[w][2] = 10
-        return f"new {m} {_rows_text(rows)}"
+        return f"new {m} {_rows_text(rows)}" + _ctor_tok(rng, rows, 0.4)
     if r < 0.8:
         sel = [rng.randrange(-n, n) for _ in range(rng.randint(1, 4))] if n else [0]
         c = rng.random()
@@ -1136,7 +1292,8 @@ def _malformed_op(rng, refs):
             sel.append(rng.choice(sel))           # duplicate (maybe through the other sign)
             if n and rng.random() < 0.5:
                 sel[-1] = sel[-1] - n if sel[-1] >= 0 else sel[-1] + n
-        return f"getitem {rng.choice(['arr', 'list'])} {_ints(sel)}"
+        kind = rng.choice(['arr', 'list'])
+        return f"getitem {kind} {_ints(sel)}" + (_tok(rng, sel, 0.5, ("ro", "sr", "be"), 0.3) if kind == "arr" else "")
     if r < 0.86:
         return f"getitem slice - - 0"
     if r < 0.9:
@@ -1206,6 +1363,10 @@ def _exhaustive():
 
 def corpus():
     return [
+        # the same values in other spellings / layouts; defaults; a refused call in the middle of a history
+        {"kind": "history", "ops": ["new 4 0,1,1;1,2,2;3,0,5 @be", "aux 5 1,0,7;4,3,1 @sc", "add2 -1 1 @i8", "add 4 0 1", "all_bonds",
+                                    "getitem arr 3,0,1 @ro", "new 3 0,1,5;1,2,6 @F", "getitem arr 2,0 @sr", "new 2 _ @none", "concat3",
+                                    "new2 3 0,1;2,1 @ro", "getitem mask 110 @ro", "getitem arr 1,0 @be", "count"]},
         # every integer object denoting the same atom index behaves the same (NumPy scalars, index arrays of any integer dtype)
         {"kind": "history", "ops": ["new 6 0,1,1;2,1,2;1,5,6;3,4,5", "getitem int 2 @i64", "getitem int 0 @u8", "getitem int -5 @i8",
                                     "getitem int 1 @ip", "get_bonds 1 @u64", "contains 1 2 @u32", "add 1 3 2 @i32", "remove 1 0 @u16",
